@@ -213,7 +213,8 @@ Definition violations_C02 (cs : list case_C02) : list N := indices_where violati
    an operation runs do not exist in the model.  What the harness does is a program over [item_C02]; what the model
    runs (and what the case records) is its erasure.  That the implementation canonicalises the path once, when the
    Project object is made, is part of the correspondence and is checked on every provenance the harness generates. *)
-Inductive prov_C02 := PvInitAbs | PvInitRel | PvCtorAbs | PvCtorRel | PvGetAbs | PvGetRel | PvDotDot | PvSlash | PvRelSlash.
+Inductive prov_C02 := PvInitAbs | PvInitRel | PvCtorAbs | PvCtorRel | PvGetAbs | PvGetRel | PvDotDot | PvSlash | PvRelSlash
+                     | PvCtorNone | PvGetNone.   (* no path argument: the project of the current working directory *)
 
 Inductive item_C02 :=
 | IOp (o : op)                                  (* an operation of the model's language *)
